@@ -1,4 +1,5 @@
 import SC.Properties.C04
+import SC.Proofs.StdEqualFold
 /-!
 # C02 — EqualFold is observationally identical to strings.EqualFold / bytes.EqualFold
 
@@ -39,6 +40,19 @@ theorem equalFold_refines (cfg : A.Cfg) (s t : Bytes) : A.EqualFold cfg s t = S.
   · symm; apply beq_false_of_ne; intro he
     have := h1.1.mp (h1.2.mpr he); rw [h] at this; cases this
   · symm; exact beq_iff_eq.mpr (h1.2.mp (h1.1.mpr h))
+
+/-- **the property itself, on models of both sides**: the transliteration of `strings.EqualFold`
+    (`Std.equalFoldS`: ASCII fast path, rune loop, orbit walk over the toolchain's `unicode.SimpleFold`) and of
+    `bytes.EqualFold` (`Std.equalFoldB`) terminate and return exactly what `strcase.EqualFold` / `bytcase.EqualFold`
+    return, for every pair of byte strings.  (`Std` is tied to the real standard library by the correspondence run.) -/
+theorem equalFold_eq_std (cfg : A.Cfg) (s t : Bytes) :
+    Std.equalFoldS s t = some (A.EqualFold { cfg with pkg := .str } s t) ∧
+    Std.equalFoldB s t = some (A.EqualFold { cfg with pkg := .byt } s t) := by
+  rw [equalFold_refines, equalFold_refines]
+  exact ⟨Std.equalFoldS_eq s t, Std.equalFoldB_eq s t⟩
+
+/-- the orbit walk of `strings.EqualFold` decides fold-equality of two code points (all naturals) -/
+theorem std_rune_comparison (sr tr : Nat) : Std.runeEq sr tr = some (caseFold sr == caseFold tr) := Std.runeEq_spec sr tr
 
 /-- strings of different code-point counts are never equal -/
 theorem equalFold_length (cfg : A.Cfg) (s t : Bytes) (h : A.EqualFold cfg s t = true) :
